@@ -364,6 +364,9 @@ void nl_string_shrink_to_fit(nl_string_t *str) {
     if (!str || str->capacity == str->length) return;
     
     size_t new_capacity = str->length + (str->null_terminated ? 1 : 0);
+    /* realloc(p, 0) frees p and returns NULL: an empty string keeps one byte */
+    if (new_capacity == 0) new_capacity = 1;
+    if (new_capacity == str->capacity) return;
     char *new_data = realloc(str->data, new_capacity);
     if (!new_data) return;
     
